@@ -160,7 +160,10 @@ def obligations(tier: str):
     for alg in ("hc", "1p1", "gp"):
         b = {"hc": 3, "1p1": 2, "gp": 3}[alg] + (1 if T else 0)
         for rn in ("tree",) + (("ge", "sge", "dsge") if T else ()):
-            add(f"{alg}_{rn}_other_process", alg=alg, budget=b, mode="other_process", one_perm=(alg == "gp" and not T), **reps[rn])
+            rc = dict(reps[rn])
+            if alg == "gp" and not T:
+                rc["max_depth"] = 1  # one program shape: the generation loop itself is what is compared
+            add(f"{alg}_{rn}_other_process", alg=alg, budget=b, mode="other_process", **rc)
         if T or alg == "1p1":
             add(f"{alg}_tree_same_process", alg=alg, budget=b, mode="same_process", **reps["tree"])
     if T:
